@@ -62,7 +62,7 @@ FieldsAt(d, s, style, sign, zh, zm, zlit, fsep, frac) ==
         c == CivilFromDays(dd)
     IN [style |-> style, dateonly |-> 0, Y |-> c.y, M |-> c.m, D |-> c.d, hh |-> sl \div 3600, mm |-> (sl % 3600) \div 60, ss |-> sl % 60,
         fsep |-> fsep, frac |-> frac, zlit |-> zlit, zsign |-> sign, zh |-> zh, zm |-> zm,
-        zcolon |-> IF sign # 0 /\ style = "iso" THEN 1 ELSE 0]
+        zcolon |-> IF sign # 0 /\ style = "iso" THEN 1 ELSE 0, nowd |-> 0]
 Variants == {<<"rfc822", 0, 0, 0, <<103, 109, 116>>, 0, <<>>>>, <<"rfc822", 0, 0, 0, <<85, 116>>, 0, <<>>>>,
              <<"rfc822", 1, 5, 30, <<>>, 0, <<>>>>, <<"rfc822", -1, 11, 0, <<>>, 0, <<>>>>,
              <<"iso", 0, 0, 0, <<122>>, 46, <<49, 50, 51, 52>>>>, <<"iso", 1, 14, 0, <<>>, 0, <<>>>>, <<"iso", -1, 0, 45, <<>>, 44, <<53>>>>,
@@ -71,8 +71,9 @@ DoParseText ==
     /\ Sampled /\ ~cur.has /\ day >= 2 /\ day < MaxDay - 2
     /\ \E v \in Variants, s \in {0, 86399, 45296} :
           LET a == FieldsAt(day, s, v[1], v[2], v[3], v[4], v[5], v[6], v[7])
-          IN \E fa \in {IF v[1] = "isobasic" THEN "iso" ELSE v[1], "auto"} :
-                ParseText(fa, a, Render(a), 0, IdealObs(day, s, 0))
+          IN \E fa \in {IF v[1] = "isobasic" THEN "iso" ELSE v[1], "auto"}, nw \in (IF v[1] = "rfc822" THEN {0, 1} ELSE {0}) :
+                LET b == [a EXCEPT !.nowd = nw] IN               \* RFC 822: with and without the optional week day
+                ParseText(fa, b, Render(b), 0, IdealObs(day, s, 0))
     /\ UNCHANGED <<day, pick>>
 
 (* generation: boundary instants *)
